@@ -236,3 +236,66 @@ func (e *Evaluator) anyConst(pk *packages.Package, x ast.Expr) (string, bool) {
 	}
 	return e.String(pk, x)
 }
+
+// MapOfLists evaluates `var name = map[K][]V{K1: {a, b}, ...}` with constant
+// keys and elements.
+func (e *Evaluator) MapOfLists(pk *packages.Package, name string) (map[string][]string, bool) {
+	for _, f := range pk.Syntax {
+		for _, d := range f.Decls {
+			gd, ok := d.(*ast.GenDecl)
+			if !ok || gd.Tok != token.VAR {
+				continue
+			}
+			for _, sp := range gd.Specs {
+				vs := sp.(*ast.ValueSpec)
+				for i, n := range vs.Names {
+					if n.Name != name || i >= len(vs.Values) {
+						continue
+					}
+					cl, ok := vs.Values[i].(*ast.CompositeLit)
+					if !ok {
+						return nil, false
+					}
+					out := map[string][]string{}
+					for _, el := range cl.Elts {
+						kv, ok := el.(*ast.KeyValueExpr)
+						if !ok {
+							return nil, false
+						}
+						k, ok1 := e.anyConst(pk, kv.Key)
+						lst, ok2 := kv.Value.(*ast.CompositeLit)
+						if !ok1 || !ok2 {
+							return nil, false
+						}
+						var vals []string
+						for _, x := range lst.Elts {
+							v, ok := e.anyConst(pk, x)
+							if !ok {
+								return nil, false
+							}
+							vals = append(vals, v)
+						}
+						out[k] = vals
+					}
+					return out, true
+				}
+			}
+		}
+	}
+	return nil, false
+}
+
+// PackageVarsWithSuffix lists package-level variable names ending in suffix.
+func PackageVarsWithSuffix(pk *packages.Package, suffix string) []string {
+	var out []string
+	if pk.Types == nil {
+		return nil
+	}
+	sc := pk.Types.Scope()
+	for _, n := range sc.Names() {
+		if _, ok := sc.Lookup(n).(*types.Var); ok && strings.HasSuffix(n, suffix) {
+			out = append(out, n)
+		}
+	}
+	return out
+}
